@@ -260,7 +260,7 @@ def body(col: Collector, case):
                 s1[k] = sA._values[k][i:i + 1].clone()
         for t, vA in termsA.items():
             v1 = s1[t]
-            if not torch.allclose(v1[0].double(), vA[i].double(), rtol=1e-5, atol=1e-6):
+            if not torch.allclose(v1[0].double(), vA[i].double(), rtol=1e-5, atol=1e-6, equal_nan=True):
                 raise Fail(f"alone:{t}-alone-differs-from-batch", v1[0].tolist(), vA[i].tolist())
         col.case(classes=["alone"], sample=None)
         # ---------------------------------------------------------------- permute (+ relabel)
